@@ -684,6 +684,12 @@ func c07RunCase(o *Out, c *c07Case, gc bool) string {
 					o.count("canary_in_rezeroed_array_element", 1)
 					break
 				}
+				// the same in a text that is not JSON further on: encoding/json refuses such a text before it stores
+				// anything, so its twin cannot tell; the zeroed element is the destination's own (found at seed 1001)
+				if cn.elem != nil && c07AllZero(bs) && !stdjson.Valid(c.doc) {
+					o.count("canary_in_rezeroed_array_element_of_invalid_text", 1)
+					break
+				}
 				return fmt.Sprintf("canary %s byte %d of %d changed to %#x", cn.desc, i, cn.n, x)
 			}
 		}
